@@ -142,7 +142,8 @@ def rdac_build(rng, d):
         head = bytes([0x7E, 0x04, 0x00, PREFIX[d["k"]]])
         if d["long"]:
             body = bytearray(226)
-            text = "OK1DMR".encode("utf_16_le")
+            # four UTF-16 text fields; badtext: a lone surrogate in one of them (legal octets, not legal UTF-16)
+            text = "OK1DMR".encode("utf_16_le") if not d.get("badtext") else b"O\x00\x00\xd8K\x00"
             for off in (56, 88, 120, 184):
                 body[off - 4:off - 4 + len(text)] = text
             body[14:17] = gen.rbytes(rng, 3)       # dmr id octets 18..20
@@ -688,7 +689,9 @@ def run(ctx):
                 prog[a[0]] = 1 if s != 14 else 14
             elif r < 0.75 and s in EXPECTED:
                 d = {"cls": "resp", "k": EXPECTED[s], "long": ctx.rng.random() < 0.9, "zero": False}
-                if not (s == 10 and not d["long"]):
+                if d["long"] and ctx.rng.random() < 0.12:
+                    d["badtext"] = True
+                if not (s == 10 and not d["long"]) and not (s == 6 and d.get("badtext")):
                     prog[a[0]] = 10 if s == 8 else s + 1
             elif r < 0.9:
                 d = {"cls": "resp", "k": ctx.rng.choice(["FD", "10", "00", "FA"]), "long": ctx.rng.random() < 0.5, "zero": False}
@@ -710,6 +713,11 @@ def run(ctx):
             ctx.count(core.digest(["rdac", e["d"], e["out"]["st"].get(e["ip"]), e["out"]["done"]]))
     for part in core.chunks(hist, 300):
         judge(ctx, part, ctx.validate_traces("Trace_RDAC", "Trace_RDAC.cfg", part), "random history", "rdac")
+    bad = sum(1 for t in hist for e in t["ev"] if e["d"].get("badtext") and e["out"]["out"] == "raise")
+    if bad:
+        ctx.outside("RDAC step 6 decodes four UTF-16 text fields of the repeater's response (firmware, call sign, hardware, serial number): a response "
+                    f"whose text is not valid UTF-16 makes the handler raise UnicodeDecodeError and the step stays 6 ({bad} such responses in the random "
+                    "histories; RDAC.tla TextRaises, no drift) - C18 does not promise that the handlers never raise")
     startup_phase(ctx)
     rdacloop_phase(ctx)
     snmp_phase(ctx)
